@@ -297,7 +297,7 @@ func runC17(t *testing.T, s C17Scenario) (res Result) {
 			if sc != nil {
 				for _, st := range sc.Trace {
 					res.TraceK = append(res.TraceK, st.K)
-					res.TraceN = append(res.TraceN, len(st.Others)+1)
+					res.TraceN = append(res.TraceN, st.N)
 				}
 			}
 		}
